@@ -155,6 +155,13 @@ class FX:
                     ty = fn.local_ty(a["place"]["local"]) if not a["place"]["proj"] else None
                     if ty and ty.get("k") == "closure" and ty["def"] not in ci.closures:
                         ci.closures.append(ty["def"])
+                elif a["k"] == "const" and isinstance(a.get("fn"), dict):
+                    # a crate function handed over as a value (`.map(Self::from_store)`): the callee may call it
+                    fk = a["fn"]
+                    r = fk.get("resolved")
+                    key2 = r["key"] if r and r.get("local") else (fk.get("key") if fk.get("local") else None)
+                    if key2 and key2 in self.prog.fns and key2 not in ci.closures:
+                        ci.closures.append(key2)
             okey = res["key"] if res else f["key"]
             for kk in (okey, f["key"]):
                 if kk in MRUC_OVERRIDES and ci.mruc:
@@ -238,6 +245,14 @@ class FX:
                         ev["comp"] = comp
                         ev["root"] = c[1]
                         ev["argpos"] = ai
+                        if ci.key in ("std::mem::swap", "std::mem::replace", "std::mem::take") and (aty.startswith("&mut") or aty.startswith("*mut")):
+                            # the whole component is exchanged / replaced (field-wise swap of two stores)
+                            ev["kind"] = "tw" if comp != "map" else "mw"
+                            ev["how"] = "call:" + ci.key
+                            ev["idx"] = None
+                            if comp == "map":
+                                ev["mclass"] = "replace"
+                            break
                         if ci.name in VIEW_NAMES and comp != "map":
                             ev["kind"] = "view"
                         elif ci.name in CAP_NAMES:
@@ -433,6 +448,13 @@ def classify_write_target(t):
                     nm = y[1].split("::")[-1]
                     if cc and nm in ("get_mut", "first_mut", "last_mut"):
                         return (cc[0], "elem", y[2][1] if len(y[2]) > 1 else ("const", "0"))
+            if x[0] == "some" and x[1][0] == "call" and x[1][2]:
+                # `if let Some(slot) = v.get_mut(i) { *slot = .. }`: the checked form of an element write
+                y = x[1]
+                cc = component(y[2][0])
+                nm = y[1].split("::")[-1]
+                if cc and nm in ("get_mut", "first_mut", "last_mut"):
+                    return (cc[0], "elem", y[2][1] if len(y[2]) > 1 else ("const", "0"))
             cc = component(x)
             if cc and x[0] != "call":
                 return (cc[0], "whole", None)
